@@ -95,15 +95,20 @@ func (s *generateState) generateType(t schema.Type, selections []ast.Selection, 
 	case *schema.ObjectType, *schema.InterfaceType, *schema.UnionType:
 		fields := map[string]string{}
 
-		hasTypename := false
+		// the Go name of the field that holds __typename (it may be selected under an alias)
+		typenameField := ""
 		for _, sel := range selections {
 			if field, ok := sel.(*ast.Field); ok {
 				if field.Name.Name == "__typename" {
-					hasTypename = true
+					typenameField = fieldName(field.Name.Name)
+					if field.Alias != nil {
+						typenameField = fieldName(field.Alias.Name)
+					}
 					break
 				}
 			}
 		}
+		hasTypename := typenameField != ""
 
 		// type => field names
 		typeConditions := map[string][]string{}
@@ -231,7 +236,7 @@ func (s *generateState) generateType(t schema.Type, selections []ast.Selection, 
 				}
 
 				for _, field := range fields {
-					s.output += `switch base.Typename__ {
+					s.output += `switch base.` + typenameField + ` {
 						case "` + strings.Join(okTypes, `", "`) + `":
 							if err := json.Unmarshal(b, &s.` + fieldName(field) + `); err != nil {
 								return err
